@@ -61,6 +61,31 @@ CHECKS = {
             "Every vector over {bot, top, undecided} up to the length bound is enumerated; counts, distinctness, decided positions and first element are checked for both iterators.",
             "Exhaustive only up to the stated length.",
             "DESIGN.md §6 C20"),
+    "C08": ("exploration",
+            "grammar-based property-based testing (proptest): generated valid texts with function-level round trip, mutation-based negative tests guarded by an independent reference recogniser, token-soup differential",
+            "Valid texts of the documented grammar (all label classes, layouts, fact orders) must parse to formulas denoting the written functions with labels verbatim; mutants in the four named malformation classes must be rejected without panic; on random token soups the parser's verdict must equal an independent reference recogniser's.",
+            "Trusts refparse.rs (reference recogniser from the documented grammar) and formula.rs. CLI / web clauses are exercised by the C15 / C16 harnesses.",
+            "DESIGN.md §6 C08"),
+    "C09": ("translation_validation",
+            "per-program translation validation driven by proptest-generated ADFs (exhaustive over each formula's support, sampled above 14 variables)",
+            "Every generated ADF (small and large: up to 60 statements, deep formulas) is validated individually: each statement's diagram is compared with its formula on all assignments of the formula's support, for native compilation, biodivine import and pre-grounded import (with grounded values substituted).",
+            "Supports above 14 variables are sampled (4000 assignments). Trusts formula.rs evaluator, sut::walk, oracle::grounded_local.",
+            "DESIGN.md §6 C09"),
+    "C10": ("exploration",
+            "metamorphic property-based testing (proptest): two presentations of one ADF must give the same label->value answers",
+            "Two independently generated presentations (labelling, fact order, layout, sort mode) of the same ADF are solved with all semantics on native/hybrid objects and compared as sets of label->value maps, incl. instances beyond the brute-force oracle; lexicographic order of names and printing checked.",
+            "Labels without blanks/brackets; expensive semantics only when few statements stay undecided.",
+            "DESIGN.md §6 C10"),
+    "C11": ("exploration",
+            "stateful property-based testing (proptest API-call histories): history object vs fresh object vs twin object vs oracle",
+            "Generated histories of public API calls on one object; after every call the answer is compared with a fresh object's, with the definition, and with an identically built twin's raw answer (determinism); acceptance handles must keep their functions.",
+            "Memoised model counts are never queried (documented exception). n<=6 statements.",
+            "DESIGN.md §6 C11"),
+    "C14": ("exploration",
+            "round-trip property-based testing (proptest): export/import at generated points of an object's life",
+            "Generated ADFs are exported after generated call prefixes through serde JSON + fix_import and through the database-style node list; numbering, handles, names and all semantics answers must be preserved and agree with the definition.",
+            "The CLI clauses (--export never overwrites, --import) are exercised by the CLI part once the binary harness is present. n<=6.",
+            "DESIGN.md §6 C14"),
 }
 
 PENDING = {}
